@@ -139,6 +139,9 @@ extern "C" long __real__ZNSt6chrono3_V212system_clock3nowEv(void);
 extern "C" long __wrap__ZNSt6chrono3_V212system_clock3nowEv(void) {
     if (!g_cfg.active) return __real__ZNSt6chrono3_V212system_clock3nowEv();
     long i = g_st.clock_reads++;
+    // a signal that lands in the middle of a library call made from inside the program's own message routine
+    // (the very first read precedes the installation of the program's handler: "after start-up" begins at the first hook point)
+    if (!g_cfg.sigint_clocks.empty() && g_st.point_hits > 0) maybe_raise(g_cfg.sigint_clocks, i, "clock", "now");
     long ms = 1000 + i;
     if (g_cfg.clock_jump_at >= 0 && i >= g_cfg.clock_jump_at) ms += g_cfg.clock_jump_ms;
     return ms * 1000000L;
